@@ -301,6 +301,11 @@ def run(ctx):
                 ctx.count("P", "fed_back_rows_raised"); continue
             ctx.count("P", "fed_back_row_runs")
             any_map(rows, what, {"inputs": [d["reaction"] for d in src]})
+        import matrix
+        for run in matrix.runs(ctx):
+            ctx.count("P", "matrix:" + run["config"][:36])
+            if not run["error"]:
+                any_map(run["rows"], "configuration matrix: " + run["config"], {"inputs": run["given"]})
         bal = Balancer(n_jobs=1, cache=True, cache_dir=os.path.join(tmpd, "cache"), batch_size=4)
         bal.remove_aam = False
         bal.rebalance(list(mapped), output_dict=True)
